@@ -1023,8 +1023,33 @@ pub mod iter {
         fn as_parallel_slice(&self) -> &[T] { self }
     }
 
+    pub struct ChunksIterMut<'a, T> { ptr: *mut T, len: usize, size: usize, _m: std::marker::PhantomData<&'a mut T> }
+    // every chunk is handed to exactly one job, as with rayon's par_chunks_mut
+    unsafe impl<'a, T: Send> Sync for ChunksIterMut<'a, T> {}
+    unsafe impl<'a, T: Send> Send for ChunksIterMut<'a, T> {}
+    impl<'a, T: Send + 'a> ParallelIterator for ChunksIterMut<'a, T> {
+        type Item = &'a mut [T];
+        fn base_len(&self) -> usize { (self.len + self.size - 1) / self.size }
+        fn feed(&self, idx: usize, sink: &mut dyn FnMut(&'a mut [T])) {
+            let lo = idx * self.size;
+            assert!(lo < self.len);
+            let n = self.size.min(self.len - lo);
+            sink(unsafe { std::slice::from_raw_parts_mut(self.ptr.add(lo), n) })
+        }
+    }
+
     pub trait ParallelSliceMut<T: Send> {
         fn as_parallel_slice_mut(&mut self) -> &mut [T];
+        fn par_chunks_mut(&mut self, size: usize) -> ChunksIterMut<'_, T> {
+            assert!(size > 0, "chunk size must be non-zero");
+            let s = self.as_parallel_slice_mut();
+            ChunksIterMut { ptr: s.as_mut_ptr(), len: s.len(), size, _m: std::marker::PhantomData }
+        }
+        fn par_chunks_exact_mut(&mut self, size: usize) -> ChunksIterMut<'_, T> {
+            assert!(size > 0, "chunk size must be non-zero");
+            let s = self.as_parallel_slice_mut();
+            ChunksIterMut { ptr: s.as_mut_ptr(), len: s.len() - s.len() % size, size, _m: std::marker::PhantomData }
+        }
         fn par_sort(&mut self) where T: Ord { self.as_parallel_slice_mut().sort() }
         fn par_sort_unstable(&mut self) where T: Ord { self.as_parallel_slice_mut().sort_unstable() }
         fn par_sort_by<F: Fn(&T, &T) -> std::cmp::Ordering + Sync>(&mut self, f: F) { self.as_parallel_slice_mut().sort_by(|a, b| f(a, b)) }
